@@ -180,12 +180,13 @@ pub fn scenarios(thorough: bool) -> Vec<Hs> {
     let mut v = vec![Hs { outgoing: true, bits: vec![0, 159] }, Hs { outgoing: false, bits: vec![0, 159] }];
     if thorough {
         v.push(Hs { outgoing: true, bits: vec![7, 80] });
+        v.push(Hs { outgoing: false, bits: vec![31, 128] });
     }
     v
 }
 
 pub fn run(ctx: &Ctx) -> Outcome {
-    let depth = ctx.tier.pick(6, 8);
+    let depth = ctx.tier.pick(6, 10);
     let mut total = explore::Stats { exhaustive: true, ..Default::default() };
     let mut per = vec![];
     for s in scenarios(ctx.tier == core::Tier::Thorough) {
